@@ -35,7 +35,7 @@ void quietHdf5() { H5Eset_auto2(H5E_DEFAULT, nullptr, nullptr); }
 
 int main(int argc, char **argv) {
     Ctx ctx;
-    ctx.work = "/verif/.build/work/" + std::to_string(getpid());
+    ctx.work = std::string(getenv("VERIF_BUILD") ? getenv("VERIF_BUILD") : "/verif/.build") + "/work/" + std::to_string(getpid());
     for (int i = 1; i < argc; i++) {
         std::string a = argv[i];
         if (a == "--work" && i + 1 < argc) ctx.work = argv[++i];
